@@ -108,6 +108,11 @@ class Registry:
         sorts.named[name] = u
         return u
 
+    def record(self, name, fields: dict[str, str]):
+        r = sorts.TRecord(name, {k: sorts.parse_ty(v) for k, v in fields.items()})
+        sorts.named[name] = r
+        return r
+
     def is_subclass(self, cls: str, parent: str) -> bool:
         seen = set()
         while cls and cls not in seen:
